@@ -143,17 +143,17 @@ theorem musig2_aggregate_verifies_ec (K : CurveOk p C) (h34 : p % 4 = 3) (H : By
 
 end
 
-/-! ## secp256k1: primality of `p` and `n` are the only assumptions -/
+/-! ## secp256k1: no assumption (primality of `p`, `n`: `secp256k1_p_prime`, `secp256k1_n_prime`, Pratt certificates) -/
 
 theorem secp_sizes32 : secp256k1.p ≤ 256 ^ 32 ∧ secp256k1.n ≤ 256 ^ 32 := by decide +kernel
 
-theorem ecdh_symmetric_secp256k1 (hp : Nat.Prime secp256k1_p) (hn : Nat.Prime secp256k1_n)
+theorem ecdh_symmetric_secp256k1
     (kdf : Bytes → R Bytes) (a b : ℤ) :
     diffieHellman (EC.ops secp256k1) kdf a ((EC.ops secp256k1).mul b secp256k1.G) =
       diffieHellman (EC.ops secp256k1) kdf b ((EC.ops secp256k1).mul a secp256k1.G) :=
-  @ecdh_symmetric_ec secp256k1_p ⟨hp⟩ secp256k1 (secpOk hp hn) secp256k1_h34 kdf a b
+  @ecdh_symmetric_ec secp256k1_p ⟨secp256k1_p_prime⟩ secp256k1 secpOk secp256k1_h34 kdf a b
 
-theorem sp_sender_scanner_agree_secp256k1 (hp : Nat.Prime secp256k1_p) (hn : Nat.Prime secp256k1_n)
+theorem sp_sender_scanner_agree_secp256k1
     (H : Bytes → Bytes → Bytes) (keys : List (ℤ × Bool)) (a : ℤ) (h : prvKeySum (EC.ops secp256k1) keys = .ok a)
     (A : Point)
     (hA : pubKeySum (EC.ops secp256k1) (keys.map fun k => spInputPoint (EC.ops secp256k1) k.1 k.2) = .ok A)
@@ -164,33 +164,33 @@ theorem sp_sender_scanner_agree_secp256k1 (hp : Nat.Prime secp256k1_p) (hn : Nat
     ∀ k, outputTweak (EC.ops secp256k1) H
           ((EC.ops secp256k1).mul (hh * a % secp256k1.n) ((EC.ops secp256k1).mul bScan secp256k1.G)) k
         = outputTweak (EC.ops secp256k1) H ((EC.ops secp256k1).mul bScan ((EC.ops secp256k1).mul hh A)) k :=
-  @sp_sender_scanner_agree_ec secp256k1_p ⟨hp⟩ secp256k1 (secpOk hp hn) secp256k1_h34 H keys a h A hA lowest hh hih
+  @sp_sender_scanner_agree_ec secp256k1_p ⟨secp256k1_p_prime⟩ secp256k1 secpOk secp256k1_h34 H keys a h A hA lowest hh hih
     bScan hb
 
-theorem musig2_partial_sig_verifies_secp256k1 (hp : Nat.Prime secp256k1_p) (hn : Nat.Prime secp256k1_n)
+theorem musig2_partial_sig_verifies_secp256k1
     (H : Bytes → Bytes → Bytes) (s : SessionCtx) (d k1 k2 σ : ℤ)
-    (hs : sign (secpOps hp hn) H k1 k2 (individualPubKey (EC.ops secp256k1) d) d s = .ok σ) :
-    partialSigVerify (secpOps hp hn) H (sBytes σ)
+    (hs : sign secpOps H k1 k2 (individualPubKey (EC.ops secp256k1) d) d s = .ok σ) :
+    partialSigVerify secpOps H (sBytes σ)
       (cbytes (EC.ops secp256k1) ((EC.ops secp256k1).mul k1 secp256k1.G) ++
         cbytes (EC.ops secp256k1) ((EC.ops secp256k1).mul k2 secp256k1.G))
       (individualPubKey (EC.ops secp256k1) d) s = .ok true :=
-  @musig2_partial_sig_verifies_ec secp256k1_p ⟨hp⟩ secp256k1 (secpOk hp hn) secp256k1_h34 H secp_sizes32.1
+  @musig2_partial_sig_verifies_ec secp256k1_p ⟨secp256k1_p_prime⟩ secp256k1 secpOk secp256k1_h34 H secp_sizes32.1
     secp_sizes32.2 s d k1 k2 σ hs
 
-theorem musig2_aggregate_verifies_secp256k1 (hp : Nat.Prime secp256k1_p) (hn : Nat.Prime secp256k1_n)
+theorem musig2_aggregate_verifies_secp256k1
     (H : Bytes → Bytes → Bytes) (l : List Signer) (hl : ∀ t ∈ l, t.ok (EC.ops secp256k1))
     (tweaks : List (Bytes × Bool)) (msg an : Bytes)
-    (han : nonceAgg (secpOps hp hn) (l.map (Signer.pubNonce (secpOps hp hn))) = .ok an)
-    (v : SessionValues (SecpPt hp))
-    (hv : sessionValues (secpOps hp hn) H (honestCtx (secpOps hp hn) l an tweaks msg none) = .ok v)
+    (han : nonceAgg secpOps (l.map (Signer.pubNonce secpOps)) = .ok an)
+    (v : SessionValues SecpPt)
+    (hv : sessionValues secpOps H (honestCtx secpOps l an tweaks msg none) = .ok v)
     (hR : ((l.map Signer.k1).sum + v.b * (l.map Signer.k2).sum) % secp256k1.n ≠ 0)
     (sigs : List ℤ)
-    (hs : List.Forall₂ (fun t σ => sign (secpOps hp hn) H t.k1 t.k2 (t.pk (secpOps hp hn)) t.d
-      (honestCtx (secpOps hp hn) l an tweaks msg none) = .ok σ) l sigs) :
-    ∃ r sg, partialSigAgg (secpOps hp hn) H (sigs.map sBytes) (honestCtx (secpOps hp hn) l an tweaks msg none)
+    (hs : List.Forall₂ (fun t σ => sign secpOps H t.k1 t.k2 (t.pk secpOps) t.d
+      (honestCtx secpOps l an tweaks msg none) = .ok σ) l sigs) :
+    ∃ r sg, partialSigAgg secpOps H (sigs.map sBytes) (honestCtx secpOps l an tweaks msg none)
         = .ok (r, sg) ∧
-      bip340Verify (secpOps hp hn) H ((EC.ops secp256k1).x v.Q.1) msg r sg = true :=
-  @musig2_aggregate_verifies_ec secp256k1_p ⟨hp⟩ secp256k1 (secpOk hp hn) secp256k1_h34 H secp_sizes32.1
+      bip340Verify secpOps H ((EC.ops secp256k1).x v.Q.1) msg r sg = true :=
+  @musig2_aggregate_verifies_ec secp256k1_p ⟨secp256k1_p_prime⟩ secp256k1 secpOk secp256k1_h34 H secp_sizes32.1
     secp_sizes32.2 l hl tweaks msg an han v hv hR sigs hs
 
 /-! ## the toy curve: actual runs, nothing assumed -/
